@@ -32,6 +32,11 @@ def slim(case, clause):
          "failed_steps": [s for s in case["steps"] if not s["ok"]]}
     if kind in ("lost", "added", "changed"):
         d["diff"] = [x for x in case.get("diffs") or [] if "%s:%s/%s" % (x["kind"], x["store"], x["class"]) == clause]
+    elif kind.startswith("order@"):
+        variant = clause[len("order@"):].split(":", 1)[0]
+        d["permuted_genesis_import"] = [r for r in case.get("permuted_genesis_imports") or [] if r["variant"] == variant]
+        for r in d["permuted_genesis_import"]:
+            r["probes_unpermuted_vs_permuted"] = [p for p in r.get("probes_unpermuted_vs_permuted") or [] if p["original"] != p["reimported"]]
     elif kind.startswith("diverge@"):
         sched, probe = clause[len("diverge@"):].split(":", 1)
         d["restart_schedule"] = [{"schedule": r["schedule"], "import_panic": r.get("import_panic"),
@@ -66,6 +71,7 @@ def run(R):
                  "the re-imported application is started with InitialHeight = exported height + 1 and the exported block time, as a network restart from the export does",
                  "only if InitChain refuses the export with 'invalid genesis version' (regression of 0bb355b) does the harness rewrite the version string so that the deeper comparison can run; the refusal itself is reported as import-panic:upgrade/version",
                  "restart schedules: besides the same-time restart every history is also re-imported under one (history 0 and the thorough tier: all) of later-7s, later-35d (beyond every pending deadline of the populated states), higher-1000 (InitialHeight + 1000) and both; a freshly replayed original chain and the re-imported chain then get the same further blocks at the same later times; balances are not compared under a height shift (block rewards depend on the height through the validator-performance window)",
+                 "metamorphic import obligation: every exported genesis is also imported with the entries of every top-level record list of every module reversed (even histories) / shuffled (odd; history 0 and thorough: both); the raw stores must equal those of the unpermuted import and the same probes must answer alike. Kept in order: customstaking.validators (order of the validator updates handed to consensus), bank.supply (sdk.Coins must be sorted), genutil.gen_txs (applied in list order); arrays of scalars and arrays nested inside records (coins, permission lists, token lists) are values, not record lists",
                  "auth / bank / params / consensus (SDK modules) are compared raw, not modelled"]
     R.gen("gen_genesis", "GenesisCoverage.v")
     R.coq_files(FILES)
@@ -73,7 +79,7 @@ def run(R):
     R.audit()
     if R.tier == "thorough" and hasattr(R, "coqchk"):
         R.coqchk()
-    n = 120 if R.tier == "quick" else 600
+    n = 80 if R.tier == "quick" else 600
     seen = set()
     total = 0
     obs = observe(R, n)
